@@ -64,6 +64,19 @@ CLAIMED["C13"] = ("traversal tables of the IterMin methods incl. the first-child
  "Decides the shape of from-key scans (search, tail iteration, child before entry, first child searched and later ones scanned), that the binary search compares (key, record) in that order with errors latched, and the range/equality cut-off tables.",
  "DESIGN.md §4 C13")
 
+CLAIMED["C05"] = ("obligation enumeration over SSA (every panic-capable instruction) discharged per path by a difference-constraint prover with checked contracts, call-site preconditions and field invariants; nil-result rule; call-graph SCC fuel rule; loop classification",
+ "Decides that no index/slice/division/allocation/assertion/explicit panic is reachable with a violating value on any path of any API-reachable function, that nil-able lookup results are guarded, that every recursion cycle spends budget and every loop is bounded. Sound up to the stated assumptions (documented API argument types, stdlib contracts); it does not bound the size of work.",
+ "DESIGN.md §4 C05, §3.4")
+CLAIMED["C10"] = ("yacc grammar def-use analysis against the compiled action switch; decision tables of the schema builder (rowid alias, collation inheritance, auto-index counter); nil-result rule; error-flow exceptions",
+ "Decides that every grammar value reported comes from the element's own production, the rowid-alias table and its call-site guards, case-insensitive collation inheritance with the index's own COLLATE taking precedence, that the automatic-index counter advances only when an index was added, and that an unparseable table is an error while an unparseable index is omitted.",
+ "DESIGN.md §4 C10, §3.3")
+CLAIMED["C16"] = ("grammar def-use (locality), package-state write analysis + fresh-parser rule (determinism), panic/termination obligations over tokenizer, lexer and action switch (totality)",
+ "Decides locality (no stale value-stack slot can leak between elements), determinism (no package state written, fresh lexer and parser per call) and totality (all panic sites of the hand-written SQL code discharged, loops and recursion bounded, value-stack indices within the production length). The goyacc driver skeleton is trusted.",
+ "DESIGN.md §4 C16")
+CLAIMED["C18"] = ("origin analysis of every []byte handed out; no-store-through-the-row rule; conversion-constant table; panic obligations of row.go",
+ "Decides that scanned byte slices are fresh copies, that scanning never modifies the row, that every row index is guarded, and that the conversion calls use the documented bases/bit sizes/layouts with zero values for NULL and missing columns.",
+ "DESIGN.md §4 C18")
+
 NA_REASON_NOT_BUILT = "check not built yet in this round; DESIGN.md §4 describes the structural clauses that will be claimed"
 ALL = ["C%02d" % i for i in range(1, 21)]
 
